@@ -110,6 +110,7 @@ func stmtInline(p *packages.Package, file *ast.File, call *ast.CallExpr, cfd *as
 		fReturn
 		fAssign
 		fIfInit
+		fNestedReturn // `return a, f(H(x)), b`: each return of H continues with this return, H(x) replaced by its result
 	)
 	var form formKind
 	var lhs []ast.Expr
@@ -122,7 +123,40 @@ func stmtInline(p *packages.Package, file *ast.File, call *ast.CallExpr, cfd *as
 		form = fExpr
 	case *ast.ReturnStmt:
 		if len(s.Results) != 1 || ast.Unparen(s.Results[0]) != ast.Expr(call) {
-			return nil, fmt.Errorf("call is nested in a return expression")
+			// nested in the returned expressions: usable when H has one result and nothing with a side effect is
+			// evaluated before it within the statement
+			tvc, ok := info.Types[call]
+			if !ok || tvc.Type == nil {
+				return nil, fmt.Errorf("call is nested in a return expression")
+			}
+			if _, isTuple := tvc.Type.(*types.Tuple); isTuple {
+				return nil, fmt.Errorf("call is nested in a return expression")
+			}
+			early := false
+			ast.Inspect(s, func(n ast.Node) bool {
+				if n == nil || early {
+					return false
+				}
+				if n.End() <= call.Pos() {
+					switch x := n.(type) {
+					case *ast.CallExpr, *ast.FuncLit:
+						early = true
+					case *ast.UnaryExpr:
+						if x.Op == token.ARROW {
+							early = true
+						}
+					}
+				}
+				if be, ok := n.(*ast.BinaryExpr); ok && (be.Op == token.LAND || be.Op == token.LOR) && be.Y.Pos() <= call.Pos() && call.End() <= be.Y.End() {
+					early = true
+				}
+				return true
+			})
+			if early {
+				return nil, fmt.Errorf("call is nested in a return expression")
+			}
+			form = fNestedReturn
+			break
 		}
 		form = fReturn
 	case *ast.AssignStmt:
@@ -630,6 +664,16 @@ func stmtInline(p *packages.Package, file *ast.File, call *ast.CallExpr, cfd *as
 		}
 		lastNil := len(ret.Results) > 0 && t2(ret.Results[len(ret.Results)-1]) == "nil" && len(ret.Results) == nres
 		switch form {
+		case fNestedReturn:
+			if len(res) != 1 {
+				return "", fmt.Errorf("result count mismatch")
+			}
+			e := res[0]
+			if !atomic(e) {
+				e = "(" + e + ")"
+			}
+			rs := stmt.(*ast.ReturnStmt)
+			return string(content[off(rs.Pos()):off(call.Pos())]) + e + string(content[off(call.End()):off(rs.End())]), nil
 		case fReturn:
 			return "return " + strings.Join(res, ", "), nil
 		case fExpr:
